@@ -94,6 +94,7 @@ def run(chk):
     kinds[1], kinds[big - 2] = "plus", "minus"
     extra.append({"kinds": kinds, "sizes": [(3 * i + 1) % 6 for i in range(big)], "expect": "reject"})
     extra.append({"kinds": ["good"] * big, "sizes": [(3 * i + 1) % 6 for i in range(big)], "expect": "ok"})
+    extra.append({"kinds": [], "sizes": [], "expect": "ok"})          # the empty batch: nothing to reject
     jobs += [dict(j, id="big-" + j["id"]) for j in jobs_from(chk, extra, with_orders=False)]
     chk.sample({"pattern": pats[len(pats) // 2], "job": {k: jobs[len(jobs) // 2][k] for k in ("id", "kinds", "expect")}})
     # (B2) 256-bit curves: batch verdict = conjunction of the individual verdicts observed in the same run; no panic
